@@ -154,4 +154,30 @@ def handle (args : List String) : String :=
         ",".intercalate (rs.map showRes) ++ s!"|len={c.items.length}"
   | _ => "bad-op"
 
+/-! ### capacity from the byte budget (`with_maximum_size`, limited_cache.rs:69-82)
+
+`max_length = maximum_size / (size_of::<K>() + size_of::<V>())`; a zero-sized pair is a
+division by zero (panic), a budget below one pair is the explicit `panic!`. -/
+
+def capacityOf (bytes per : Nat) : Option Nat :=
+  if per = 0 then none
+  else if bytes / per < 1 then none else some (bytes / per)
+
+/-- largest number of entries ever held while running `ops`. -/
+def maxLen (c : Cache) : List Op → Nat
+  | [] => c.items.length
+  | op :: ops => Nat.max c.items.length (maxLen (step c op).1 ops)
+
+/-- line protocol `C20b <bytes> <per> <n>`: budget, size of one pair, number of distinct keys
+    inserted (`add 0 0 … add (n-1) (n-1)`), answer `cap=<c> maxlen=<m> len=<l>` or `panic`. -/
+def handleBudget (args : List String) : String :=
+  match args.map String.toNat? with
+  | [some bytes, some per, some n] =>
+    match capacityOf bytes per with
+    | none => "panic"
+    | some cap =>
+      let ops := (List.range n).map fun i => Op.add i i
+      s!"cap={cap} maxlen={maxLen (init cap) ops} len={(run (init cap) ops).1.items.length}"
+  | _ => "bad-op"
+
 end VtModel.Cache
